@@ -5,6 +5,7 @@ package main
 
 import (
 	"fmt"
+	"go/constant"
 	"go/token"
 	"go/types"
 	"sort"
@@ -567,46 +568,69 @@ func (m *Model) RunIllegalTop(s *Sink, rule string) {
 		k, ok := c.Common().Args[1].(*ssa.Const)
 		return ok && k.Value != nil && k.Int64() == illegal
 	}
-	var fns []*ssa.Function
-	for _, h := range m.helpersOf(pp) {
-		fns = append(fns, h)
-	}
-	pi := m.newPassInfo(isTest, func(*ssa.Call) bool { return false }, fns, nil)
-	key := fnKey(pp) + "|the token a statement ends on is tested for ILLEGAL before the parser steps on"
-	nStmt, bad := 0, ""
-	for _, fn := range fns {
-		for _, b := range fn.Blocks {
-			for i, in := range b.Instrs {
-				c, ok := in.(*ssa.Call)
-				if !ok || c.Call.StaticCallee() != ps {
+	// the test, however spelled: curTokenIs(ILLEGAL), or a comparison of the current token's type with ILLEGAL
+	isTestInstr := func(in ssa.Instruction) bool {
+		switch x := in.(type) {
+		case ssa.CallInstruction:
+			return isTest(x)
+		case *ssa.BinOp:
+			if x.Op != token.EQL && x.Op != token.NEQ {
+				return false
+			}
+			for _, pr := range [][2]ssa.Value{{x.X, x.Y}, {x.Y, x.X}} {
+				k, isK := pr[1].(*ssa.Const)
+				if !isK || k.Value == nil || k.Value.Kind() != constant.Int || k.Int64() != illegal {
 					continue
 				}
-				nStmt++
-				// a step reachable from here without the test
-				for _, b2 := range fn.Blocks {
-					for j, in2 := range b2.Instrs {
-						c2, ok2 := in2.(*ssa.Call)
-						if !ok2 || c2.Call.StaticCallee() != nt {
-							continue
-						}
-						target, idx := b2, j
-						if pi.pathAvoiding(fn, b, i+1, func(x *ssa.BasicBlock) bool {
-							if x != target {
-								return false
-							}
-							from := 0
-							if x == b {
-								from = i + 1
-							}
-							for k := from; k < idx && k < len(x.Instrs); k++ {
-								if ci, isCI := x.Instrs[k].(ssa.CallInstruction); isCI && isTest(ci) {
-									return false
-								}
-							}
-							return true
-						}, nil) && bad == "" {
+				if _, path, ok := pathOf(pr[0]); ok && strings.HasSuffix(path, ".curToken.Type") {
+					return true
+				}
+			}
+		}
+		return false
+	}
+	key := fnKey(pp) + "|the token a statement ends on is tested for ILLEGAL before the parser steps on"
+	nStmt, bad := 0, ""
+	for _, b := range pp.Blocks {
+		for i, in := range b.Instrs {
+			c, ok := in.(*ssa.Call)
+			if !ok || c.Call.StaticCallee() != ps {
+				continue
+			}
+			nStmt++
+			// a step reachable from here without the test
+			type item struct {
+				b    *ssa.BasicBlock
+				from int
+			}
+			seen := map[*ssa.BasicBlock]bool{}
+			stack := []item{{b, i + 1}}
+			for len(stack) > 0 && bad == "" {
+				it := stack[len(stack)-1]
+				stack = stack[:len(stack)-1]
+				stopped := false
+				for k := it.from; k < len(it.b.Instrs) && !stopped; k++ {
+					x := it.b.Instrs[k]
+					if isTestInstr(x) {
+						stopped = true
+						break
+					}
+					if c2, isC := x.(*ssa.Call); isC {
+						if c2.Call.StaticCallee() == nt {
 							bad = m.InstrPos(c2)
+							stopped = true
+						} else if c2.Call.StaticCallee() == ps {
+							stopped = true // the next statement: judged from its own call
 						}
+					}
+				}
+				if stopped {
+					continue
+				}
+				for _, sb := range it.b.Succs {
+					if !seen[sb] {
+						seen[sb] = true
+						stack = append(stack, item{sb, 0})
 					}
 				}
 			}
